@@ -14,8 +14,10 @@ THEOREM = ("Ufo2ft.C08.C08_pure / C08_history / C08_sorted_unique / sortOn_perm_
            "groupMarkClasses_perm / groupMarkClasses_sets / marksSorted_perm / cursivePairs_perm / ligCarets_perm / "
            "sortedGlyphClass_names / anchorsToAdd_perm / partitionByScript_sets / mergedSets_perm / splitKerning_perm / "
            "C08_vfinfo / infoInit_frame / infoInit_temp / infoInit_lib_agnostic / C08_history_vfinfo / infoInitAliased_touches / "
-           "created_pinned / created_value / created_unset_clock / minIdx_spec / closest_spec / closest_lib_agnostic")
-PROOF_FILES = ["C08", "C08Env"]
+           "created_pinned / created_value / created_unset_clock / minIdx_spec / closest_spec / closest_lib_agnostic / "
+           "created_calendar / created_unique / created_calendar_iff / created_holds / civil_correct / civil_roundtrip / "
+           "daysSince1970_inj / yoe_of / doe_decomp / yearSum / monthSum")
+PROOF_FILES = ["C08", "C08Env", "C08Calendar"]
 N = {"quick": 40, "thorough": 500}
 RULE = ("(1) digests: random feature-rich fonts (2-4 scripts incl. RTL/Indic, kerning groups + glyph/class pairs incl. cross-script, "
         "mark/mkmk/ligature/cursive/caret anchors, composites with propagateAnchors, categories from lib/GDEF/none, languagesystems, "
@@ -48,9 +50,10 @@ RULE = ("(1) digests: random feature-rich fonts (2-4 scripts incl. RTL/Indic, ke
         "with each other; `closest` = propagateAnchors._bounds + _component_closest_to_origin on the copied glyph set of such a composite "
         "built with defcon and with ufoLib2, compared with the closed-form exact corners and the model's argmin. "
         "non-trivial = digests case with >= 2 scripts, kerning pairs and marks; emitter case whose two orders really differ.")
-ASSUMED = ["datetime.fromtimestamp(e, utc).strftime is the proleptic Gregorian calendar (modelled as civil-from-days arithmetic; every observed "
-           "date is checked by the independent year-by-year count `denotes`, the arithmetic identity itself is not proved for all e); int() of "
-           "the environment text is an input; SOURCE_DATE_EPOCH >= 0",
+ASSUMED = ["datetime.fromtimestamp(e, utc).strftime is the proleptic Gregorian calendar (an external library: modelled as civil-from-days "
+           "arithmetic, which is PROVED equal to the year-by-year / month-by-month count for every e >= 0 - created_calendar, created_unique in "
+           "Props/C08Calendar.lean; that datetime itself agrees is observed per case through `denotes`); int() of the environment text is an "
+           "input; 0 <= SOURCE_DATE_EPOCH (a Nat in the model; datetime additionally raises above 253402300799 = 9999-12-31 23:59:59, not modelled)",
            "the bounds a UFO library / fontTools BoundsPen reports for a component are inputs of the model (observed equal to closed-form "
            "exact corners on the generated shapes, both libraries)",
            "fontTools/feaLib/varLib/cu2qu/cffsubr are deterministic functions of their inputs (measured by the digest runs, not modelled)",
@@ -928,7 +931,12 @@ LEVEL_NOTE = ("Trusted: Lean kernel + standard axioms; the correspondence harnes
               "name/OS2/hhea/head/post values of the variable font are a function of that temporary Info, and that nothing ELSE in a variable "
               "build writes to the masters, is observed by the digest histories (static / variable compiles after a variable build with "
               "overrides), not proved. `created`: the predicate (same result under two clocks + the date denotes the instant, counted year by "
-              "year) is evaluated by the Lean driver on observed data; the clock is faked in-process for the emitter stream and real (interpreters "
+              "year) is evaluated by the Lean driver on observed data, and the model is proved to satisfy it for EVERY epoch e >= 0 "
+              "(Props/C08Calendar.lean: created_calendar = the era arithmetic of civilFromDays yields a valid date whose year-by-year / "
+              "month-by-month / h:m:s count is e, incl. the 4/100/400 leap rule; created_unique = it is the only such date, so `denotes f e` "
+              "<-> f = stampOf e; civil_correct / civil_roundtrip = days->civil->days and civil->days->civil are identities; created_holds = "
+              "holdsCreated of the model for all inputs; daysSince1970 is structural, no fuel). What remains unproved there: that CPython's "
+              "datetime is this calendar (observed), e < 0 and e > 253402300799 (outside the model). The clock is faked in-process for the emitter stream and real (interpreters "
               "seconds apart, SOURCE_DATE_EPOCH=0 and other values) in the digest stream. `closest`: the equality of defcon's Component.bounds and "
               "fontTools' BoundsPen with the exact corners is a predicate-only observation (external library behaviour), the argmin is modelled "
               "and proved.")
